@@ -429,6 +429,52 @@ def cli_cases(res, tier, seed):
                 res.spec_failures.append({"cli": "image boot", "set": what, "what": f"a set that must be rejected ({what}): the command line reported success (exit 0)", "files": left})
             elif left:
                 res.spec_failures.append({"cli": "image boot", "set": what, "what": f"a rejected set ({what}) left files in the output directory", "files": left})
+        # the NCS build script (ncs/build.py storage): the entry point of a real build, and the only command line with a --soc option
+        lay9280 = drv.call({"op": "storage.layout", "soc": "nrf9280"})["ok"]
+        v9, c9, _ = lay9280["assignments"][0]
+        e9 = None
+        k = 0
+        while e9 is None:
+            e9 = envelope_for(seed, 996000 + k, v9, c9, rng, d)
+            k += 1
+        p9 = os.path.join(d, "nrf9280.suit")
+        open(p9, "wb").write(e9)
+        dupcfg = os.path.join(d, "dup.config")
+        open(dupcfg, "w").write('SB_CONFIG_SUIT_MPI_APP_LOCAL_1_VENDOR_NAME="dup.example"\nSB_CONFIG_SUIT_MPI_APP_LOCAL_1_CLASS_NAME="same"\n'
+                                'SB_CONFIG_SUIT_MPI_RAD_LOCAL_1_VENDOR_NAME="dup.example"\nSB_CONFIG_SUIT_MPI_RAD_LOCAL_1_CLASS_NAME="same"\n')
+        script_cases = [("nrf54h20", envs["nrf54h20"], None, 0x0E1ED000, True), ("nrf9280", (p9, e9), None, 0x0E1ED000, True), ("nrf9280", (p9, e9), None, 0x00FF0000, True),
+                        ("nrf54h20", envs["nrf54h20"], dupcfg, 0x0E1ED000, False), ("nrf54h20", (up, unknown), None, 0x0E1ED000, False)]
+        for k, (soc, (path, data), cfgfile, addr, ok) in enumerate(script_cases):
+            outd = os.path.join(d, f"script{k}")
+            os.makedirs(outd)
+            args = ["storage", "--input-envelope", path, "--storage-output-directory", outd, "--storage-address", hex(addr), "--soc", soc]
+            if cfgfile:
+                args += ["--config-file", cfgfile]
+            rc, log = common.run_ncs_build(args, d)
+            res.case(["ncs-build-storage", soc, addr, bool(cfgfile), ok], nontrivial=True)
+            res.count("cli:ncs-build-storage")
+            left = {f: open(os.path.join(outd, f)).read() for f in os.listdir(outd)}
+            if not ok:
+                if rc == 0:
+                    res.spec_failures.append({"cli": "ncs/build.py storage", "soc": soc, "what": "a set / configuration that must be rejected: the build script reported success (exit 0)",
+                                              "files": sorted(left), "log": log[-300:]})
+                elif left:
+                    res.spec_failures.append({"cli": "ncs/build.py storage", "soc": soc, "what": "a rejected set left files in the output directory", "files": sorted(left)})
+                continue
+            req = {"op": "storage.boot", "files": [data.hex()], "base": addr, "soc": soc, "fs": {}}
+            model = drv.call(req)
+            if rc != 0 or not left:
+                if "ok" in model:
+                    res.spec_failures.append({"cli": "ncs/build.py storage", "soc": soc, "what": f"the build script failed on a valid envelope (exit {rc})", "log": log[-300:]})
+                continue
+            images = {}
+            for fname, text in left.items():
+                dom = fname.replace("suit_installed_envelopes_", "").replace("_merged.hex", "").upper()
+                images[dom] = drv.call({"op": "ihex.read", "text": text}).get("ok")
+            if "ok" not in model or model["ok"] != images:
+                res.spec_failures.append({"cli": "ncs/build.py storage", "soc": soc, "storage_address": addr,
+                                          "what": f"the images written by the build script for --soc {soc} are not those of that SoC's layout at {addr:#x}",
+                                          "segments": {k_: [a for a, _ in (v or [])] for k_, v in images.items()}})
     for (soc, n, sp), (rc, log, files) in zip(cases, outs):
         res.case(["cli-boot", soc, n, sp], nontrivial=True)
         res.count("cli:boot")
